@@ -241,6 +241,16 @@ Proof.
   unfold Gpool.step in Hs. destruct (nth_error (wk s) w) as [[]|]; try discriminate. injection Hs as <-.
   cbn [wq set_wk set_wq] in H. rewrite app_length in H. cbn in H. lia.
 Qed.
+(* a worker in the idle queue, and the worker the dispatcher is about to hand a job to, is idle (waiting in its select): a job is
+   never handed to a worker that is still running another one, so it does not wait behind a long job while workers are idle *)
+Theorem registered_workers_are_idle s : reachable s ->
+  (forall w, In w (wq s) -> nth_error (wk s) w = Some WWait) /\
+  (forall j w, dp s = DHand j w -> nth_error (wk s) w = Some WWait /\ exists s', step s Hand = Some s').
+Proof.
+  intros Hr. destruct (reachable_inv _ _ _ Hr) as ((_ & _ & _ & _ & Hin & HH & _) & _). split; [exact Hin|].
+  intros j w Hd. destruct (HH j w Hd) as [Hw _]. split; [exact Hw|]. unfold Gpool.step. rewrite Hd, Hw. eauto.
+Qed.
+
 Theorem worker_queue_never_blocks s : reachable s ->
   length (wq s) <= W /\ (forall w s', step s (WorkerReg w) = Some s' -> length (wq s) < W).
 Proof. intros Hr. split; [now apply worker_queue_within_capacity|intros w s'; now apply worker_registration_never_blocks]. Qed.
